@@ -315,7 +315,7 @@ func c17HashCase(c *Ctx, r *Report) {
 		var problems []string
 		n := 0
 		normalised := func(v ssa.Value) bool {
-			return anyIn(sliceOf(v), callsFunc("strings.ToUpper", "HashName"))
+			return anyIn(sliceOf(v), callsFunc("strings.ToUpper", "asciiUpper", "HashName"))
 		}
 		allInstrs(fn, func(in ssa.Instruction) {
 			b, ok := in.(*ssa.BinOp)
